@@ -16,5 +16,5 @@ case $rc in
   *) echo "MACHINERY rc=$rc $id $patch"; echo "$out" | tail -15;;
 esac
 # restore evidence of the unchanged tree
-git -C /verif checkout -- evidence 2>/dev/null
+git -C /verif checkout -- evidence 2>/dev/null; git -C /verif clean -fdq -- evidence/replay 2>/dev/null
 exit 0
